@@ -1,26 +1,204 @@
-"""C11 — Schema extensions merge into their definitions without loss or invention."""
-import harness
-from facts import (norm, call_name, short, subnodes, matches_on, arm_variants, field_reads, peel_ty)
-from prov import Prov, has_field
-from templates import LOSSY_OR_REORDERING, enclosing_contexts, method_chain
+"""C11 — Schema extensions merge into their definitions without loss or invention.
 
-MOD = "nitrogql_semantics::schema_extension_resolver"
+Anchors are located by *role*, not by name, so that renaming the registry API, moving the merge functions to another module,
+turning them into trait impls or splitting the resolver into helpers leaves every rule evaluable:
+  entry        fn(TypeSystemOrExtensionDocument) -> Result<TypeSystemDocument, _>
+  merge fn     a function of the crate whose result is a type-system definition struct D and whose inputs mention
+               exactly D and one other type-system struct E (the extension type), E's components being components of D
+  registry     the struct with one `Option<P1>` and one `Vec<P2>` field over bare type parameters (the per-name entry), the struct
+               that stores such entries (the list), and the list's methods by signature: the one taking a P1 (registers an
+               original), the one taking a P2 (registers an extension), the one consuming `self` (yields the groups)
+A role that cannot be located is UNDECIDED (AnchorMissing), never an alarm."""
+import re
+import harness
+from facts import (norm, call_name, call_args, short, subnodes, matches_on, arm_variants, field_reads, peel_ty, AnchorMissing)
+from prov import Prov, has_field, _pat_bindings
+from templates import LOSSY_OR_REORDERING, enclosing_contexts, method_chain, variant_table, inlined, scope_fns, _contains
+
+CRATE = "nitrogql_semantics"
+MOD = CRATE + "::schema_extension_resolver"
 TS = "nitrogql_ast::type_system::"
 NOT_MERGED = ("position", "name")  # identity of the extension, not content
+_TS_NAME = re.compile(r"nitrogql_ast::type_system::(\w+)")
+_IDENT = re.compile(r"^\w+$")
+
+
+# ------------------------------------------------------------------------------------------------------------ type strings
+def _split_top(s):
+    """split a comma separated list of types at nesting depth 0"""
+    out, depth, cur = [], 0, ""
+    for ch in s:
+        if ch in "<([":
+            depth += 1
+        elif ch in ">)]":
+            depth -= 1
+        if ch == "," and depth == 0:
+            out.append(cur.strip())
+            cur = ""
+        else:
+            cur += ch
+    if cur.strip():
+        out.append(cur.strip())
+    return out
+
+
+def _head_args(t):
+    """`a::B<X, Y<Z>>` -> ("a::B", ["X", "Y<Z>"])"""
+    t = peel_ty(t)
+    i = t.find("<")
+    if i < 0 or not t.endswith(">"):
+        return t, []
+    return t[:i], _split_top(t[i + 1:-1])
+
+
+_CONTAINERS = {"alloc::vec::Vec", "alloc::vec::into_iter::IntoIter", "core::slice::iter::Iter", "core::slice::iter::IterMut",
+               "alloc::vec::drain::Drain", "alloc::collections::vec_deque::VecDeque", "alloc::collections::vec_deque::iter::Iter",
+               "alloc::collections::vec_deque::into_iter::IntoIter", "alloc::boxed::Box"}
+_ITEM_PRESERVING = {"rev::Rev", "skip::Skip", "take::Take", "peekable::Peekable", "filter::Filter", "skip_while::SkipWhile",
+                    "take_while::TakeWhile", "step_by::StepBy", "fuse::Fuse", "cloned::Cloned", "copied::Copied", "chain::Chain",
+                    "inspect::Inspect", "cycle::Cycle"}
+
+
+def elem_type(t):
+    """element type of a sequence / of an iterator over a sequence (through item-preserving adaptors); None for anything else"""
+    t = peel_ty(t)
+    if t.startswith("[") and t.endswith("]"):
+        return peel_ty(t[1:-1].split(";")[0].strip())
+    head, args = _head_args(t)
+    if not args:
+        return None
+    if head in _CONTAINERS:
+        inner = peel_ty(args[0])
+        return elem_type(inner) if head == "alloc::boxed::Box" else inner
+    if head.startswith("core::iter::adapters::") and head[len("core::iter::adapters::"):] in _ITEM_PRESERVING:
+        return elem_type(args[0])
+    return None
+
+
+# ------------------------------------------------------------------------------------------------------------------ roles
+def _entry(P):
+    hits = [f for f in P.fns.values() if f.crate == CRATE and f.kind in ("Fn", "AssocFn") and not f.derived and "::tests" not in f.path
+            and [peel_ty(x) for x in f.sig_inputs] == [TS + "TypeSystemOrExtensionDocument"]
+            and (f.sig_output or "").startswith("core::result::Result<" + TS + "TypeSystemDocument")]
+    if len(hits) == 1:
+        return hits[0]
+    return P.fn(MOD + "::resolve_schema_extensions")
+
+
+def _scope(P):
+    """functions of the crate reachable from the entry (fn values and trait impls included), tests and derives excluded"""
+    e = _entry(P)
+    out = []
+    for p in sorted(P.reachable([e])):
+        f = P.fns[p]
+        if f.crate == CRATE and not f.derived and "::tests" not in f.path:
+            out.append(f)
+    return out
+
+
+def _param_types(f):
+    out = []
+    for i, p in enumerate(f.params):
+        t = norm(p.get("t")) if p.get("t") else (f.sig_inputs[i] if i < len(f.sig_inputs) else "")
+        out.append(t or "")
+    return out or list(f.sig_inputs)
 
 
 def merge_fns(P):
-    """merge functions anchored by signature: fn((XDefinition, Vec<XExtension>)) -> XDefinition"""
+    """[(fn, definition ADT path, extension ADT path)] — by signature role (free function over a pair, method, trait impl)"""
     out = []
     for f in P.fns.values():
-        if not f.path.startswith(MOD) or f.kind != "Fn" or len(f.sig_inputs) != 1:
+        # crate-wide, not only what the entry still reaches: a merge function that fell out of use is exactly what R11-a reports
+        if f.crate != CRATE or f.derived or "::tests" in f.path or f.kind not in ("Fn", "AssocFn"):
             continue
-        i = f.sig_inputs[0]
-        if i.startswith("(" + TS) and "alloc::vec::Vec<" + TS in i and f.sig_output.startswith(TS):
-            orig = f.sig_output
-            ext = i.split("alloc::vec::Vec<")[1].rstrip(">)")
-            out.append((f, orig, ext))
+        orig = f.sig_output or ""
+        a = P.adts.get(orig)
+        if not orig.startswith(TS) or a is None or a.kind != "Struct":
+            continue
+        mentioned = set()
+        for t in _param_types(f):
+            mentioned |= {TS + m for m in _TS_NAME.findall(t)}
+        others = mentioned - {orig}
+        if orig not in mentioned or len(others) != 1:
+            continue
+        ext = others.pop()
+        e = P.adts.get(ext)
+        if e is None or e.kind != "Struct":
+            continue
+        content = [x for x in e.fields() if x not in NOT_MERGED]
+        if not content or not set(content) <= set(a.fields()):
+            continue
+        out.append((f, orig, ext))
+    out.sort(key=lambda x: x[0].path)
     return out
+
+
+def _tag(f, fns):
+    """key prefix of a merge function: its name when that identifies it, `Type::method` otherwise"""
+    return f.name if sum(1 for g in fns if g.name == f.name) == 1 else short(f.path)
+
+
+class Registry(object):
+    pass
+
+
+_REG = {}
+
+
+def registry(P):
+    """role anchors of the per-kind registry (see module docstring)"""
+    if id(P) in _REG:
+        return _REG[id(P)]
+    entries = []
+    for a in P.adts.values():
+        if a.crate != CRATE or a.kind != "Struct":
+            continue
+        ft = a.field_types()
+        if len(ft) != 2:
+            continue
+        opt = [(n, t) for n, t in ft.items() if t.startswith("core::option::Option<")]
+        vec = [(n, t) for n, t in ft.items() if t.startswith("alloc::vec::Vec<")]
+        if len(opt) == 1 and len(vec) == 1:
+            p1, p2 = _head_args(opt[0][1])[1][0], _head_args(vec[0][1])[1][0]
+            if _IDENT.match(p1) and _IDENT.match(p2) and p1 != p2:
+                entries.append((a, opt[0][0], vec[0][0], p1, p2))
+    if len(entries) != 1:
+        raise AnchorMissing("registry entry type (struct of one Option<P> and one Vec<Q>) not identified: %s" % [e[0].path for e in entries])
+    r = Registry()
+    r.entry_adt, r.orig_field, r.ext_field, r.orig_param, r.ext_param = entries[0]
+    r.entry = r.entry_adt.path
+    lists = [(a, n) for a in P.adts.values() if a.crate == CRATE and a.kind == "Struct" for n, t in a.field_types().items() if r.entry + "<" in t]
+    if len(lists) != 1:
+        raise AnchorMissing("registry list type (struct storing %s) not identified: %s" % (r.entry, [x[0].path for x in lists]))
+    r.list_adt, r.map_field = lists[0]
+    r.list = r.list_adt.path
+    methods = [f for f in P.fns.values() if f.self_adt == r.list and not f.derived and not f.impl_trait and f.kind == "AssocFn"]
+
+    def one(what, cands):
+        if len(cands) != 1:
+            raise AnchorMissing("registry method that %s not identified: %s" % (what, [c.path for c in cands]))
+        return cands[0]
+
+    def takes(f, param):
+        return [i for i, t in enumerate(_param_types(f)) if peel_ty(t) == param]
+    r.set = one("registers an original (takes a %s)" % r.orig_param, [f for f in methods if len(takes(f, r.orig_param)) == 1 and not takes(f, r.ext_param)])
+    r.add = one("registers an extension (takes a %s)" % r.ext_param, [f for f in methods if len(takes(f, r.ext_param)) == 1 and not takes(f, r.orig_param)])
+    r.into = one("consumes the list", [f for f in methods if f.sig_inputs and f.sig_inputs[0].split("<")[0].endswith(r.list.split("::")[-1])
+                                       and not f.sig_inputs[0].startswith("&") and "alloc::vec::Vec<" in (f.sig_output or "")])
+    r.set_arg, r.add_arg = takes(r.set, r.orig_param)[0], takes(r.add, r.ext_param)[0]
+    h, args = _head_args(r.set.sig_output or "")
+    r.err = args[1] if h == "core::result::Result" and len(args) == 2 and args[1] in P.adts else None
+    _REG.clear()
+    _REG[id(P)] = r
+    return r
+
+
+def _guarded(R, rule, key, fn, *a):
+    """run one sub-check; an anchor it cannot resolve leaves only that sub-check undecided"""
+    try:
+        fn(*a)
+    except AnchorMissing as e:
+        R.undecided(rule, key, "kind=anchor-missing: %s (this clause cannot be evaluated on this shape of the code)" % e)
 
 
 def _deep_field_reads(P, f, expr, adt_path):
@@ -39,74 +217,194 @@ def _deep_field_reads(P, f, expr, adt_path):
     return out
 
 
+def _strip(e):
+    while e is not None and e.get("k") in ("DropTemps", "Paren", "Use", "AddrOf", "Type") and "e" in e:
+        e = e["e"]
+    return e
+
+
+# ------------------------------------------------------------------------------------------------------------------ R11-a
 def r11a(P, R):
-    f = P.fn(MOD + "::resolve_schema_extensions")
-    for enum, n in (("type_system::TypeSystemDefinitionOrExtension", 5), ("type_system::TypeDefinition", 6),
-                    ("type_system::TypeExtension", 6)):
+    _guarded(R, "R11-a", "anchor:routing", _r11a_route, P, R)
+    _guarded(R, "R11-a", "anchor:lists", _r11a_lists, P, R)
+    _guarded(R, "R11-a", "anchor:output", _r11a_output, P, R)
+
+
+def _route_matches(P, enum):
+    """matches over `enum` in the resolver that *route*: an arm hands its payload to the registry (a match that only inspects
+    the value — a log line, a label — is not a routing decision); all matches if none is recognisably routing"""
+    out = []
+    for g in _scope(P):
+        for m in matches_on(g, enum):
+            out.append((g, m))
+    try:
+        rg = registry(P)
+        roles = {rg.set.path, rg.add.path}
+        routing = [(g, m) for g, m in out if any(call_name(x) in roles for x in subnodes(m) if x.get("k") in ("MethodCall", "Call"))]
+    except AnchorMissing:
+        routing = []
+    return routing or out
+
+
+def _r11a_route(P, R):
+    for enum in ("type_system::TypeSystemDefinitionOrExtension", "type_system::TypeDefinition", "type_system::TypeExtension"):
         adt = P.adt("nitrogql_ast::" + enum)
-        ms = matches_on(f, enum)
+        ms = _route_matches(P, enum)
         R.floor("R11-a", "matches over " + enum.split("::")[-1], len(ms), 1)
-        for m in ms:
+        for g, m in ms:
             v, catch = arm_variants(m)
             R.check("R11-a", "route:" + enum.split("::")[-1], v == set(adt.variant_names()) and not catch,
                     "all %d variants routed explicitly" % len(v),
-                    "resolve_schema_extensions does not route every %s variant explicitly: %s, catch-all=%s"
-                    % (enum, sorted(set(adt.variant_names()) - v), catch), loc=f.loc())
-    # every list is filled by set_original + add_extension and consumed once; the output chains all of them
-    pv = Prov(f)
-    lists = {}
-    for n in f.walk():
-        if n.get("k") == "MethodCall" and (call_name(n) or "").startswith(MOD + "::extension_list::ExtensionList::"):
-            base = n["recv"]
-            while base.get("k") in ("AddrOf", "Unary"):
-                base = base["e"]
-            if base.get("k") == "Path" and "name" in base:
-                lists.setdefault(base["name"], set()).add(n["method"])
-    R.floor("R11-a", "extension lists", len(lists), 7)
-    for name, ms in sorted(lists.items()):
-        R.check("R11-a", "list:" + name, ms == {"set_original", "add_extension", "into_original_and_extensions"},
-                "filled with originals and extensions, consumed", "list `%s` is only used with %s" % (name, sorted(ms)), loc=f.loc())
-    docs = [n for n in f.walk() if n.get("k") == "Struct" and "rest" not in n and norm(n.get("adt")) == TS + "TypeSystemDocument"]
-    R.floor("R11-a", "result document literal", len(docs), 1)
+                    "%s does not route every %s variant explicitly: %s, catch-all=%s"
+                    % (g.path, enum, sorted(set(adt.variant_names()) - v), catch), loc=g.loc())
+    # directive definitions are pushed unchanged and unconditionally in their arm
+    ms = _route_matches(P, "type_system::TypeSystemDefinitionOrExtension")
+    for g, m in ms:
+        arm = variant_table(m).get("DirectiveDefinition")
+        if arm is None:
+            continue  # reported by route: above
+        bound = {b["local"] for b in _pat_bindings(arm["pat"])}
+        body = subnodes(arm["body"])
+        pushes = [n for n in body if n.get("k") == "MethodCall" and n["method"] in ("push", "push_back", "extend", "insert") and n["args"]]
+        if not pushes:
+            R.undecided("R11-c", "directive-push", "the DirectiveDefinition arm of %s does not push the definition in a recognised way" % g.path, loc=g.loc())
+            continue
+        asis = [n for n in pushes if (_strip(n["args"][-1]) or {}).get("k") == "Path" and _strip(n["args"][-1]).get("local") in bound]
+        cond = [n for n in pushes if any(x.get("k") in ("If", "Match") and x is not n and _contains(x, n) for x in body)]
+        R.check("R11-c", "directive-push", len(asis) == len(pushes) and not cond, "directive definitions pushed as-is",
+                "%s transforms directive definitions before pushing them, or pushes them only under a condition" % g.path, loc=g.loc())
+
+
+def _r11a_lists(P, R):
+    """every kind's registry is filled with originals, filled with extensions, and consumed (kinds = the merge functions' types;
+    a registry is identified by its type instantiation, whatever holds it: a local, a struct field, ...)"""
+    rg = registry(P)
+    roles = {rg.set.path: "registers originals", rg.add.path: "registers extensions", rg.into.path: "is consumed"}
+    seen = {}
+    for g in _scope(P):
+        for n in g.walk():
+            if n.get("k") not in ("MethodCall", "Call"):
+                continue
+            cn = call_name(n)
+            if cn not in roles or not call_args(n):
+                continue
+            recv = call_args(n)[0]
+            h, args = _head_args(recv.get("t") or recv.get("ta") or "")
+            if h != rg.list or len(args) < 2:
+                h, args = _head_args(recv.get("ta") or "")
+            if h == rg.list and len(args) >= 2:
+                seen.setdefault((args[-2], args[-1]), set()).add(roles[cn])
     mf = merge_fns(P)
     R.floor("R11-a", "merge functions (by signature)", len(mf), 7)
-    for d in docs:
-        a = pv.atoms(d)
+    for g, orig, ext in mf:
+        got = seen.get((orig, ext), set())
+        key = "list:" + orig.split("::")[-1]
+        if not got:
+            R.undecided("R11-a", key, "no registry of (%s, %s) is used by the resolver in a recognised way" % (orig.split("::")[-1], ext.split("::")[-1]), loc=g.loc())
+            continue
+        missing = sorted(set(roles.values()) - got)
+        R.check("R11-a", key, not missing, "filled with originals and extensions, consumed",
+                "the registry of %s %s but never %s: those items never reach the merged document"
+                % (orig.split("::")[-1], " and ".join(sorted(got)), " / ".join(missing)), loc=_entry(P).loc())
+
+
+def _r11a_output(P, R):
+    e = _entry(P)
+    docs = [(h, n) for h in _scope(P) for n in h.walk()
+            if n.get("k") == "Struct" and "rest" not in n and norm(n.get("adt")) == TS + "TypeSystemDocument"]
+    R.floor("R11-a", "result document literal", len(docs), 1)
+    mf = merge_fns(P)
+    names = [g for g, _, _ in mf]
+    reach = {}
+
+    def reaches(h, target):
+        # a merge function may be reached through a helper or a generic dispatcher the document is computed from
+        if h not in reach:
+            f = P.fns.get(h)
+            reach[h] = P.reachable([f]) if f is not None and f.crate == CRATE and h != e.path else set()
+        return target in reach[h]
+    for h, d in docs:
+        a = Prov(h).atoms(d)
+        refs = {x[1] for x in a if x[0] in ("def", "call")}
         for g, orig, ext in mf:
-            R.check("R11-a", "output:" + g.name, ("def", g.path) in a or ("call", g.path) in a,
+            ok = g.path in refs or any(reaches(r_, g.path) for r_ in refs)
+            R.check("R11-a", "output:" + _tag(g, names), ok,
                     "merged %s reach the output document" % orig.split("::")[-1],
-                    "the output document does not include the result of %s" % g.path, loc=f.loc())
-        R.check("R11-c", "directive-passthrough", ("def", TS + "TypeSystemDefinition::DirectiveDefinition") in a
-                or ("call", TS + "TypeSystemDefinition::DirectiveDefinition") in a,
-                "directive definitions are passed through", "directive definitions do not reach the output", loc=f.loc())
+                    "the output document built in %s does not include the result of %s" % (h.path, g.path), loc=h.loc())
+        R.check("R11-c", "directive-passthrough", TS + "TypeSystemDefinition::DirectiveDefinition" in refs,
+                "directive definitions are passed through", "directive definitions do not reach the output", loc=h.loc())
+    # per kind: whatever puts a definition of that kind into the output enum takes it from its merge function (directly, or through
+    # a dispatcher that reaches it) — not from the registry's raw (original, extensions) groups
+    wraps = {}
+    for en in ("TypeSystemDefinition", "TypeDefinition"):
+        for v in P.adt(TS + en).variants:
+            if len(v["fields"]) == 1:
+                wraps[norm(v["path"])] = norm(v["fields"][0]["ty"])
+    for h in _scope(P):
+        pv, acc = None, h.nodes()
+        for i, (n, par) in enumerate(acc):
+            d = norm(n.get("def", "")) if n.get("k") == "Path" else None
+            if d not in wraps or not n.get("dk", "").startswith("Ctor"):
+                continue
+            target = [g for g, orig, ext in mf if orig == wraps[d]]
+            parent = acc[par][0] if par >= 0 else None
+            if not target or parent is None:
+                continue
+            if parent.get("k") == "Call" and parent.get("f") is n and parent["args"]:
+                up = parent["args"][0]          # Variant(x)
+            elif parent.get("k") == "MethodCall" and any(a is n for a in parent["args"]):
+                up = parent["recv"]             # iterator.map(Variant)
+            else:
+                continue
+            pv = pv or Prov(h)
+            a = pv.atoms(up)
+            refs = {x[1] for x in a if x[0] in ("def", "call")}
+            g = target[0]
+            key = "output-merged:" + _tag(g, names)
+            if g.path in refs or any(reaches(r_, g.path) for r_ in refs):
+                R.holds("R11-a", key, "%s values enter the output through %s" % (wraps[d].split("::")[-1], short(g.path)), loc=h.loc())
+            elif h.path != e.path and any(x[0] == "param" for x in a):
+                R.undecided("R11-a", key, "%s wraps %s values that arrive through a parameter; their origin is not decided here" % (h.path, wraps[d].split("::")[-1]), loc=h.loc())
+            else:
+                R.violated("R11-a", key, "%s puts %s values into the output document that do not come from %s: the extensions of that kind "
+                           "are dropped" % (h.path, wraps[d].split("::")[-1], g.path), loc=h.loc())
     # the output type has no extension variant (type-level "no extend item survives")
     out_enum = P.adt(TS + "TypeSystemDefinition")
     R.check("R11-c", "no-extension-variant", not any("Extension" in v for v in out_enum.variant_names()),
             "TypeSystemDefinition has no extension variant", "output type can carry extensions: %s" % out_enum.variant_names())
-    # directive definitions pushed unchanged
-    pushes = [n for n in f.walk() if n.get("k") == "MethodCall" and n["method"] == "push"]
-    ok = len(pushes) == 1 and pushes[0]["args"][0].get("k") == "Path" and "local" in pushes[0]["args"][0]
-    R.check("R11-c", "directive-push", ok, "directive definitions pushed as-is", "directive definitions are transformed before being pushed", loc=f.loc())
 
 
+# ------------------------------------------------------------------------------------------------------------------ R11-b
 def r11b(P, R):
-    for f, orig, ext in merge_fns(P):
+    mf = merge_fns(P)
+    names = [g for g, _, _ in mf]
+    R.floor("R11-b", "merge functions (by signature)", len(mf), 7)
+    helpers = {}
+    for f, orig, ext in mf:
         o_adt, e_adt = P.adt(orig), P.adt(ext)
-        tag = f.name
+        tag = _tag(f, names)
         pv = Prov(f)
+        sc = scope_fns(P, f)
+        for h in sc[1:]:
+            if h.path not in [g.path for g in names]:
+                helpers[h.path] = h
         # 1. original destructured exhaustively (no `..`), so a new field cannot be forgotten silently
         pats = [n for n in f.walk() if n.get("k") == "Struct" and "rest" in n and norm(n.get("pat_adt")) == orig]
-        ok = len(pats) == 1 and not pats[0]["rest"] and {x["name"] for x in pats[0]["fields"]} == set(o_adt.fields())
-        R.check("R11-b", tag + ":exhaustive-pattern", ok, "original destructured without `..`",
-                "%s does not destructure the original exhaustively (a `..` or missing field lets a component be dropped)" % f.path, loc=f.loc())
+        if not pats:
+            R.undecided("R11-b", tag + ":exhaustive-pattern", "%s does not take the original apart with a struct pattern; not decided for this shape" % f.path, loc=f.loc())
+        else:
+            ok = all(not p["rest"] and {x["name"] for x in p["fields"]} == set(o_adt.fields()) for p in pats)
+            R.check("R11-b", tag + ":exhaustive-pattern", ok, "original destructured without `..`",
+                    "%s does not destructure the original exhaustively (a `..` or missing field lets a component be dropped)" % f.path, loc=f.loc())
         # 2. result literal without ..base, one literal
         lits = [n for n in f.walk() if n.get("k") == "Struct" and "rest" not in n and norm(n.get("adt")) == orig]
-        ok = len(lits) == 1 and "base" not in lits[0] and not lits[0].get("default_tail")
-        R.check("R11-b", tag + ":result-literal", ok, "result built field by field",
-                "%s builds its result with `..base` or several literals" % f.path, loc=f.loc())
-        if not lits:
-            continue
-        lit = lits[0]
+        based = [n for n in lits if "base" in n or n.get("default_tail")]
+        if based:
+            R.violated("R11-b", tag + ":result-literal", "%s builds its result with `..base`: components not listed are copied without merging" % f.path, loc=f.loc())
+        elif len(lits) == 1:
+            R.holds("R11-b", tag + ":result-literal", "result built field by field", loc=f.loc())
+        else:
+            R.undecided("R11-b", tag + ":result-literal", "%s builds its result with %d struct literals; not decided for this shape" % (f.path, len(lits)), loc=f.loc())
         # 2b. no shortcut exit: every path builds the merged literal, unless the shortcut's guard inspects every content component
         e_content = [x for x in e_adt.fields() if x not in NOT_MERGED]
         for i, (n, _) in enumerate(f.nodes()):
@@ -123,8 +421,10 @@ def r11b(P, R):
                            "extensions' %s: those components are dropped whenever the shortcut is taken" % (f.path, missing), loc=f.loc())
             else:
                 R.undecided("R11-b", tag + ":shortcut", "%s has an early return whose guard reads every content component; its exactness is not decided" % f.path, loc=f.loc())
-        # 3. every content field of the extension is read
-        reads = field_reads(f)
+        # 3. every content field of the extension is read (by the function or a helper it calls)
+        reads = set()
+        for h in sc:
+            reads |= field_reads(h)
         e_fields = [x for x in e_adt.fields() if x not in NOT_MERGED]
         for ef in e_fields:
             R.check("R11-b", "%s:ext-read:%s" % (tag, ef), (ext, ef) in reads,
@@ -135,22 +435,25 @@ def r11b(P, R):
         tys = [o_adt.field_types()[x] for x in e_fields if x in o_adt.field_types()]
         R.check("R11-b", tag + ":distinct-types", len(tys) == len(set(tys)), "mergeable components have pairwise distinct types",
                 "two mergeable components of %s share a type (%s): a cross-wired merge would type-check" % (orig, tys), loc=f.loc())
+        if len(lits) != 1 or based:
+            continue
+        lit = lits[0]
         # 5. per result field
         for fld in lit["fields"]:
             name = fld["name"]
             a = pv.atoms(fld["e"])
             if name in e_fields:
                 base, chain = method_chain(fld["e"])
-                names = [c["method"] for c in chain]
+                names_ = [c["method"] for c in chain]
                 chains = [c for c in chain if c["method"] == "chain"]
-                ok_shape = len(chains) == 1 and names[-1] == "collect"
-                bad = [m for m in names if m in LOSSY_OR_REORDERING]
+                ok_shape = len(chains) == 1 and names_[-1] == "collect"
+                bad = [m for m in names_ if m in LOSSY_OR_REORDERING]
                 if bad:
                     R.violated("R11-b", "%s:concat:%s" % (tag, name),
                                "%s applies `%s` to the merged `%s`: the result is not original ++ extensions" % (f.path, bad, name), loc=f.loc())
                     continue
                 if not ok_shape:
-                    R.undecided("R11-b", "%s:concat:%s" % (tag, name), "merge expression is not a recognised chain/collect idiom: %s" % names, loc=f.loc())
+                    R.undecided("R11-b", "%s:concat:%s" % (tag, name), "merge expression is not a recognised chain/collect idiom: %s" % names_, loc=f.loc())
                     continue
                 c = chains[0]
                 ra = pv.atoms(c["recv"])
@@ -164,159 +467,349 @@ def r11b(P, R):
                         % (f.path, name, name, name, inner_bad or "receiver/argument provenance"), loc=f.loc())
             else:
                 only = {x for x in a if x[0] == "field" and x[1] == orig}
+                if not only and not pats:
+                    R.undecided("R11-b", "%s:passthrough:%s" % (tag, name), "origin of result field `%s` is not visible as a component of the original" % name, loc=f.loc())
+                    continue
                 R.check("R11-b", "%s:passthrough:%s" % (tag, name), only == {("field", orig, name)},
                         "`%s` passes through from the original" % name,
                         "%s: result field `%s` is not the original's `%s` (computed from %s)" % (f.path, name, name, sorted(only)), loc=f.loc())
-    # helper unzipN: pushes every component, in iteration order, exactly once
-    for hn, k in (("unzip2", 2), ("unzip3", 3)):
-        h = P.fn(MOD + "::" + hn)
+    # helpers the merge functions hand the extensions to (unzipN): every component pushed, in iteration order, exactly once
+    for hp in sorted(helpers):
+        h = helpers[hp]
+        if h.kind not in ("Fn", "AssocFn"):
+            continue
         pushes = [n for n in h.walk() if n.get("k") == "MethodCall" and n["method"] == "push"]
         bad = [n["method"] for n in h.walk() if n.get("k") == "MethodCall" and n["method"] in LOSSY_OR_REORDERING]
-        R.check("R11-b", hn + ":pushes", len(pushes) == k and not bad, "%d components pushed per element" % k,
-                "%s pushes %d components (expected %d) or reorders (%s)" % (h.path, len(pushes), k, bad), loc=h.loc())
+        out = h.sig_output or ""
+        k = len(_split_top(out[1:-1])) if out.startswith("(") and out.endswith(")") else None
+        key = h.name + ":pushes"
+        if bad:
+            R.violated("R11-b", key, "%s, which the merge functions feed the extensions through, reorders or drops elements (%s)" % (h.path, bad), loc=h.loc())
+        elif k and pushes:
+            R.check("R11-b", key, len(pushes) == k, "%d components pushed per element" % k,
+                    "%s pushes %d components per element but returns %d collections" % (h.path, len(pushes), k), loc=h.loc())
+        elif k:
+            R.undecided("R11-b", key, "%s returns %d collections but does not fill them by pushing per element; not decided for this shape" % (h.path, k), loc=h.loc())
+        else:
+            R.holds("R11-b", key, "no element-dropping or reordering operation", loc=h.loc())
+
+
+# ------------------------------------------------------------------------------------------------------------------ R11-d
+def _is_option_field(e, pv, adt, field, depth=0):
+    """is expression `e` the Option-valued field itself (through references, `as_ref`-like views and single-assignment aliases)?"""
+    e = _strip(e)
+    while e is not None and e.get("k") == "MethodCall" and e.get("method") in ("as_ref", "as_mut", "as_deref", "as_deref_mut", "take", "clone", "iter"):
+        e = _strip(e["recv"])
+    while e is not None and e.get("k") == "Unary" and e.get("op") in ("Deref", "*"):
+        e = _strip(e["e"])
+    if e is None:
+        return False
+    if e.get("k") == "Field":
+        return e.get("field") == field and norm(e.get("adt", "")) == adt
+    if e.get("k") == "Path" and "local" in e and depth < 3:
+        srcs = pv.src.get(e["local"], [])
+        if len(srcs) == 1 and srcs[0][0] is not None and not srcs[0][1]:
+            return _is_option_field(srcs[0][0], pv, adt, field, depth + 1)
+    return False
+
+
+_FLIP = {"present": "absent", "absent": "present"}
+
+
+def _option_test(cond, pv, adt, field):
+    """what a boolean condition being *true* says about the Option field: ("present"|"absent"|None, exact?)"""
+    cond = _strip(cond)
+    if cond is None:
+        return None, False
+    k = cond.get("k")
+    if k == "LetExpr" and _is_option_field(cond["init"], pv, adt, field):
+        v, _c = arm_variants({"arms": [{"pat": cond["pat"]}]})
+        if v == {"Some"}:
+            return "present", True
+        if v == {"None"}:
+            return "absent", True
+        return None, False
+    if k == "MethodCall" and cond.get("method") in ("is_some", "is_none") and _is_option_field(cond["recv"], pv, adt, field):
+        return ("present" if cond["method"] == "is_some" else "absent"), True
+    if k == "Unary" and cond.get("op") in ("Not", "!"):
+        s, ex = _option_test(cond["e"], pv, adt, field)
+        return (_FLIP[s], ex) if s and ex else (None, False)
+    if k == "Binary" and cond.get("op") in ("&&", "And"):
+        for side in (cond["l"], cond["r"]):
+            s, _ex = _option_test(side, pv, adt, field)
+            if s:
+                return s, False  # implied by the conjunction, but the conjunction is narrower
+    return None, False
+
+
+def _presence(ctx, pv, adt, field):
+    """what control context `ctx` (templates.enclosing_contexts) establishes about the Option field: (state, exact?)"""
+    kind = ctx[0]
+    if kind == "arm":
+        m, arm = ctx[1], ctx[2]
+        if m is None or not _is_option_field(m["scrut"], pv, adt, field):
+            return None, False
+        v, catch = arm_variants({"arms": [arm]})
+        guarded = "guard" in arm
+        if v == {"Some"}:
+            return "present", not guarded
+        if v == {"None"}:
+            return "absent", not guarded
+        if catch and not v:
+            ov, og = set(), False
+            for a in m["arms"]:
+                if a is not arm:
+                    vv, _c = arm_variants({"arms": [a]})
+                    ov |= vv
+                    og = og or "guard" in a
+            if ov == {"Some"} and not og:
+                return "absent", True
+            if ov == {"None"} and not og:
+                return "present", True
+        return None, False
+    if kind in ("if-then", "if-else"):
+        s, ex = _option_test(ctx[1]["cond"], pv, adt, field)
+        if s is None:
+            return None, False
+        if kind == "if-else":
+            return (_FLIP[s], True) if ex else (None, False)
+        return s, ex
+    if kind == "let-else":
+        let = ctx[1]
+        if let.get("init") is None or not _is_option_field(let["init"], pv, adt, field):
+            return None, False
+        v, _c = arm_variants({"arms": [{"pat": let["pat"]}]})
+        if v == {"Some"}:
+            return "absent", True
+        if v == {"None"}:
+            return "present", True
+    return None, False
+
+
+def _branch_of(ctx):
+    kind = ctx[0]
+    if kind == "arm":
+        return ctx[2]["body"]
+    if kind == "if-then":
+        return ctx[1]["then"]
+    if kind == "if-else":
+        return ctx[1]["else"]
+    if kind == "let-else":
+        return ctx[1]["els"]
+    return None
+
+
+def _is_try(ctx):
+    return ctx[0] == "arm" and ctx[1] is not None and str(ctx[1].get("src", "")).startswith("TryDesugar")
+
+
+def _err_sites(fn, rg):
+    return [(i, n) for i, (n, _) in enumerate(fn.nodes()) if n.get("k") == "Struct" and "rest" not in n
+            and (norm(n.get("adt", "")) == rg.err if rg.err else norm(n.get("adt", "")).endswith("Error"))]
+
+
+def _pname(pv, f, i):
+    p = f.params[i] if i < len(f.params) else None
+    return pv.params.get(p.get("local")) if p is not None and p.get("k") == "Binding" else None
 
 
 def r11d(P, R):
-    EL = MOD + "::extension_list::ExtensionList::"
-    item = MOD + "::extension_list::ExtensionItem"
-    so = P.fn(EL + "set_original")
-    ae = P.fn(EL + "add_extension")
-    io = P.fn(EL + "into_original_and_extensions")
-    # add_extension has no error path
-    R.check("R11-d", "add_extension-total", ae.sig_output == "()", "add_extension cannot fail", "add_extension returns %s" % ae.sig_output, loc=ae.loc())
-    # set_original: Err only under `Some(..) = item.original`
+    """error shape of the registry (shared with C05: duplicate same-kind definitions are detected here).  Keys name the *role*
+    (set_original = registers an original, add_extension = registers an extension, into = consumes the list)."""
+    rg = registry(P)
+    _guarded(R, "R11-d", "anchor:set_original", _r11d_set, P, R, rg)
+    _guarded(R, "R11-d", "anchor:add_extension", _r11d_add, P, R, rg)
+    _guarded(R, "R11-d", "anchor:into", _r11d_into, P, R, rg)
+
+
+def _r11d_set(P, R, rg):
+    so = inlined(P, rg.set)
     pv = Prov(so)
-    errs = [(i, n) for i, (n, _) in enumerate(so.nodes()) if n.get("k") == "Struct" and "rest" not in n
-            and norm(n.get("adt", "")).endswith("ExtensionError")]
+    own = _pname(pv, so, rg.set_arg)
+    errs = _err_sites(so, rg)
     R.floor("R11-d", "error constructions in set_original", len(errs), 1)
     for i, n in errs:
-        ctx = enclosing_contexts(so, i)
-        ok = False
-        for c in ctx:
-            if c[0] == "if-then":
-                cond = c[1]["cond"]
-                lets = [x for x in subnodes(cond) if x.get("k") == "LetExpr"]
-                for l in lets:
-                    v = [p for p in subnodes(l["pat"]) if p.get("k") == "TupleStruct" and norm(p.get("ctor_of", "")).endswith("Option::Some")]
-                    if v and has_field(pv.atoms(l["init"]), item, "original"):
-                        ok = True
-        # ... and always then: the guard is exactly that test (no further conjunct that could let a second original through
-        # to the store below)
-        exact = None
-        for c in ctx:
-            if c[0] == "if-then":
-                cond = c[1]["cond"]
-                while cond.get("k") in ("DropTemps", "Paren"):
-                    cond = cond["e"]
-                if cond.get("k") == "LetExpr":
-                    exact = has_field(pv.atoms(cond["init"]), item, "original")
-                elif cond.get("k") == "MethodCall" and cond.get("method") == "is_some":
-                    exact = has_field(pv.atoms(cond["recv"]), item, "original")
-                elif cond.get("k") == "Binary" and cond.get("op") in ("&&", "And"):
-                    exact = False
-                break
-        if exact:
-            # every exit of the guarded block is the error
-            for c in ctx:
-                if c[0] == "if-then":
-                    rets = [y for y in subnodes(c[1]["then"]) if y.get("k") == "Ret"]
-                    oks = [y for y in subnodes(c[1]["then"]) if (call_name(y) or "").endswith("Result::Ok")]
-                    if oks or len(rets) != 1:
-                        exact = False
-                    break
-        if exact is None:
-            R.undecided("R11-d", "set_original:dup-always", "the duplicate guard of set_original is not a recognised exact presence test", loc=so.loc())
+        conds = [c for c in enclosing_contexts(so, i) if c[0] in ("arm", "if-then", "if-else", "let-else") and not _is_try(c)]
+        states = [(c, _presence(c, pv, rg.entry, rg.orig_field)) for c in conds]
+        present = [(j, c, ex) for j, (c, (s, ex)) in enumerate(states) if s == "present"]
+        absent = [c for c, (s, ex) in states if s == "absent"]
+        # DuplicateOriginal only when an original is already registered
+        if present:
+            R.holds("R11-d", "set_original:dup-only", "DuplicateOriginal only when an original is already present", loc=so.loc())
+        elif absent or not conds:
+            R.violated("R11-d", "set_original:dup-only", "%s fails on a path where no original is registered yet (%s)"
+                       % (so.path, "the error sits in the branch for an absent original" if absent else "the error is unconditional"), loc=so.loc())
         else:
-            R.check("R11-d", "set_original:dup-always", exact, "every second original is rejected (the guard is exactly `original is present`)",
-                    "set_original rejects a second definition only under an extra condition: otherwise the store below silently replaces "
-                    "the first definition (its content is lost, no DuplicateOriginal)", loc=so.loc())
-        R.check("R11-d", "set_original:dup-only", ok, "DuplicateOriginal only when an original is already present",
-                "set_original fails on a path not guarded by `Some(_) = item.original`", loc=so.loc())
-    # the store `item.original = Some(original)`
-    stores = [n for n in so.walk() if n.get("k") == "Assign" and n["l"].get("k") == "Field" and n["l"]["field"] == "original"]
-    ok = len(stores) == 1 and ("param", "original") in pv.atoms(stores[0]["r"])
-    R.check("R11-d", "set_original:stores", ok, "the original is stored", "set_original does not store its argument as the original", loc=so.loc())
-    # add_extension pushes its argument to `extensions`
+            R.undecided("R11-d", "set_original:dup-only", "the condition under which %s fails is not a recognised presence test of `%s`" % (so.path, rg.orig_field), loc=so.loc())
+        # ... and always then
+        if not present:
+            R.undecided("R11-d", "set_original:dup-always", "the duplicate guard of %s is not a recognised presence test" % so.path, loc=so.loc())
+            continue
+        j, g, exact = present[0]
+        inner = conds[:j]
+        branch = _branch_of(g)
+        inside = subnodes(branch) if branch is not None else []
+        oks = [y for y in inside if (call_name(y) or "").endswith("Result::Ok")]
+        rets = [y for y in inside if y.get("k") == "Ret" and not _contains(y, n)]
+        stores = [y for y in inside if y.get("k") == "Assign" and _is_option_field(y["l"], pv, rg.entry, rg.orig_field)]
+        why = []
+        if not exact:
+            why.append("the guard tests more than `an original is present`")
+        if inner:
+            why.append("inside the guarded branch the error is under a further condition")
+        if oks or rets:
+            why.append("the guarded branch has an exit that does not report the duplicate")
+        if stores:
+            why.append("the guarded branch overwrites the stored original")
+        R.check("R11-d", "set_original:dup-always", not why, "every second original is rejected (the guard is exactly `original is present`)",
+                "%s rejects a second definition only under an extra condition (%s): otherwise the first definition is silently "
+                "replaced or the second one dropped, without DuplicateOriginal" % (so.path, "; ".join(why)), loc=so.loc())
+    # the store `entry.original = Some(original)`
+    stores = [n for n in so.walk() if n.get("k") == "Assign" and _is_option_field(n["l"], pv, rg.entry, rg.orig_field)]
+    sets = [n for n in so.walk() if n.get("k") == "MethodCall" and n.get("method") in ("insert", "replace", "get_or_insert", "get_or_insert_with")
+            and n["args"] and _is_option_field(n["recv"], pv, rg.entry, rg.orig_field)]
+    vals = [n["r"] for n in stores] + [n["args"][0] for n in sets]
+    if not vals:
+        R.undecided("R11-d", "set_original:stores", "%s does not store into `%s` in a recognised way" % (so.path, rg.orig_field), loc=so.loc())
+    else:
+        R.check("R11-d", "set_original:stores", all(("param", own) in pv.atoms(v) for v in vals), "the original is stored",
+                "%s stores something else than its argument as the original" % so.path, loc=so.loc())
+    _key_check(P, R, rg, so, pv, own, "set_original")
+
+
+def _key_check(P, R, rg, g, pv, own, role):
+    """the registry is keyed by the element's own name"""
+    keyed = [n for n in g.walk() if n.get("k") == "MethodCall" and n["args"]
+             and n.get("method") in ("entry", "get", "get_mut", "insert", "contains_key", "get_or_insert_with", "get_index_of", "get_full", "get_full_mut")
+             and has_field(pv.atoms(n["recv"]), rg.list, rg.map_field) and not any(a[0] == "field" and a[1] == rg.entry for a in pv.atoms(n["recv"]))]
+    if not keyed:
+        R.undecided("R11-d", role + ":key", "%s does not look its entry up in a recognised way" % g.path, loc=g.loc())
+        return
+    ok = all(("param", own) in pv.atoms(n["args"][0]) and any(x[0] == "call" and x[1].endswith("HasPos::name") for x in pv.atoms(n["args"][0])) for n in keyed)
+    R.check("R11-d", role + ":key", ok, "registry keyed by the element's name", "%s does not key the registry by the element's own name" % g.path, loc=g.loc())
+
+
+def _r11d_add(P, R, rg):
+    ae = inlined(P, rg.add)
+    out = ae.sig_output or ""
+    R.check("R11-d", "add_extension-total", not out.startswith(("core::result::Result<", "core::option::Option<")), "add_extension cannot fail",
+            "%s returns %s: registering an extension has an error path" % (ae.path, out), loc=ae.loc())
     pv = Prov(ae)
-    pushes = [n for n in ae.walk() if n.get("k") == "MethodCall" and n["method"] == "push"]
-    ok = len(pushes) == 1 and has_field(pv.atoms(pushes[0]["recv"]), item, "extensions") and ("param", "extension") in pv.atoms(pushes[0]["args"][0])
-    R.check("R11-d", "add_extension:push", ok, "extension appended (document order)", "add_extension does not append its argument to `extensions`", loc=ae.loc())
-    # key of both registries is the element's own name
-    for g, pn in ((so, "original"), (ae, "extension")):
-        pv = Prov(g)
-        entries = [n for n in g.walk() if n.get("k") == "MethodCall" and n["method"] == "entry"]
-        ok = len(entries) == 1 and ("param", pn) in pv.atoms(entries[0]["args"][0]) and \
-            any(x[0] == "call" and x[1].endswith("HasPos::name") for x in pv.atoms(entries[0]["args"][0]))
-        R.check("R11-d", g.name + ":key", ok, "registry keyed by the element's name", "%s does not key the registry by the element's own name" % g.path, loc=g.loc())
-    # into_original_and_extensions: NoOriginal only in the None arm of item.original with a first extension
+    own = _pname(pv, ae, rg.add_arg)
+    appends = [n for n in ae.walk() if n.get("k") == "MethodCall" and n["args"] and has_field(pv.atoms(n["recv"]), rg.entry, rg.ext_field)
+               and elem_type(n["recv"].get("ta") or n["recv"].get("t") or "") is not None
+               and n.get("method") in ("push", "push_back", "extend", "extend_from_slice", "append", "insert", "push_front")]
+    if not appends:
+        R.undecided("R11-d", "add_extension:push", "%s does not append to `%s` in a recognised way" % (ae.path, rg.ext_field), loc=ae.loc())
+    else:
+        ok = all(n["method"] in ("push", "push_back", "extend", "extend_from_slice", "append") and ("param", own) in pv.atoms(n["args"][-1]) for n in appends)
+        R.check("R11-d", "add_extension:push", ok, "extension appended (document order)",
+                "%s does not append its argument at the end of `%s`" % (ae.path, rg.ext_field), loc=ae.loc())
+    _key_check(P, R, rg, ae, pv, own, "add_extension")
+
+
+def _r11d_into(P, R, rg):
+    io = inlined(P, rg.into)
     pv = Prov(io)
-    errs = [(i, n) for i, (n, _) in enumerate(io.nodes()) if n.get("k") == "Struct" and "rest" not in n
-            and norm(n.get("adt", "")).endswith("ExtensionError")]
+    errs = _err_sites(io, rg)
     R.floor("R11-d", "error constructions in into_original_and_extensions", len(errs), 1)
     for i, n in errs:
-        ctx = [c for c in enclosing_contexts(io, i) if c[0] == "arm"]
-        in_none = False
-        in_some_ext = False
-        for _, m, arm in ctx:
-            sa = pv.atoms(m["scrut"])
-            v, _c = arm_variants({"arms": [arm]})
-            if has_field(sa, item, "original") and "None" in v and not has_field(sa, item, "extensions"):
-                in_none = True
-            if has_field(sa, item, "extensions") and "Some" in v:
-                in_some_ext = True
-        R.check("R11-d", "into:orphan-only", in_none and in_some_ext, "NoOriginal only for an extension without original",
-                "into_original_and_extensions fails on a path other than (original = None, some extension)", loc=io.loc())
-    # Some(orig) => Ok((orig, item.extensions)) : pairs carry the item's own extensions
-    oks = [n for n in io.walk() if n.get("k") == "Tup" and len(n["es"]) == 2 and has_field(pv.atoms(n["es"][1]), item, "extensions")]
-    R.check("R11-d", "into:pairs", len(oks) >= 1, "each original is paired with its own extensions", "originals are not paired with their extension list", loc=io.loc())
-
-
-def r11e(P, R):
-    """document order of extensions is preserved: nothing in the resolver reorders or drops elements of a
-    collection of extensions (Vec<ExtensionType>, Vec<XExtension>, iterators over them)"""
-    n = 0
-    for f in P.fns.values():
-        if not f.path.startswith(MOD) or "::tests" in f.path:
+        ctxs = [c for c in enclosing_contexts(io, i) if c[0] in ("arm", "if-then", "if-else", "let-else") and not _is_try(c)]
+        ostate = {_presence(c, pv, rg.entry, rg.orig_field)[0] for c in ctxs} - {None}
+        # is there an extension on this path?  enclosing arm over `extensions…next()`-like Option, or the error's payload is taken
+        # from an element of `extensions`
+        estate = set()
+        for c in ctxs:
+            if c[0] == "arm" and c[1] is not None and peel_ty(c[1]["scrut"].get("t")).startswith("core::option::Option<"):
+                sa = pv.atoms(c[1]["scrut"])
+                if has_field(sa, rg.entry, rg.ext_field) and not has_field(sa, rg.entry, rg.orig_field):
+                    v, catch = arm_variants({"arms": [c[2]]})
+                    estate.add("some" if v == {"Some"} else ("none" if (v == {"None"} or catch) else "?"))
+        if "some" not in estate and "none" not in estate and has_field(pv.atoms(n), rg.entry, rg.ext_field):
+            estate.add("some")  # the payload (position of the first extension) exists only if an extension does
+        key = "into:orphan-only"
+        if "present" in ostate:
+            R.violated("R11-d", key, "%s fails for an entry whose original is present" % io.path, loc=io.loc())
+        elif "none" in estate:
+            R.violated("R11-d", key, "%s fails for an entry that has no extension" % io.path, loc=io.loc())
+        elif "absent" in ostate and "some" in estate:
+            R.holds("R11-d", key, "NoOriginal only for an extension without original", loc=io.loc())
+        else:
+            R.undecided("R11-d", key, "the condition under which %s fails is not a recognised (original absent, extension present) test" % io.path, loc=io.loc())
+    # Some(orig) => (orig, entry.extensions): each original is grouped with the entry's own extensions
+    groups, proper = 0, 0
+    for n in io.walk():
+        if n.get("k") == "Tup" and len(n.get("es", [])) >= 2:
+            comps = n["es"]
+        elif n.get("k") == "Struct" and "rest" not in n and len(n.get("fields", [])) >= 2 and norm(n.get("adt", "")) != rg.err and not n.get("variant"):
+            comps = [f["e"] for f in n["fields"]]
+        else:
             continue
+        at = [pv.atoms(c) for c in comps]
+        ho = [has_field(a, rg.entry, rg.orig_field) for a in at]
+        he = [has_field(a, rg.entry, rg.ext_field) for a in at]
+        if not any(ho):
+            continue  # not a group around an original
+        groups += 1
+        if any(ho[a_] and he[b_] and not ho[b_] for a_ in range(len(comps)) for b_ in range(len(comps)) if a_ != b_):
+            proper += 1
+    if not groups:
+        R.undecided("R11-d", "into:pairs", "%s does not build (original, extensions) groups in a recognised way" % io.path, loc=io.loc())
+    else:
+        R.check("R11-d", "into:pairs", proper >= 1, "each original is paired with its own extensions",
+                "%s pairs originals with something else than the entry's `%s`" % (io.path, rg.ext_field), loc=io.loc())
+
+
+# ------------------------------------------------------------------------------------------------------------------ R11-e
+def r11e(P, R):
+    """document order of extensions is preserved: nothing in the resolver reorders or drops elements of a collection whose
+    *elements are extensions* (Vec<XExtension>, Vec<ExtensionType>, iterators over them)"""
+    rg = registry(P)
+    ext_types = {ext for _, _, ext in merge_fns(P)} | {rg.ext_param}
+    group_marks = {rg.orig_param} | {orig for _, orig, _ in merge_fns(P)}
+    n = 0
+    sc = _scope(P)
+    for f in sc:
         for c in f.walk():
             if c.get("k") != "MethodCall":
                 continue
-            t = peel_ty(c["recv"].get("ta") or c["recv"].get("t"))
-            if "Extension" not in t or "(" in t or "ExtensionList" in t or "ExtensionItem" in t or "ExtensionError" in t:
+            cands = [elem_type(c["recv"].get(k_) or "") for k_ in ("ta", "t")]
+            el = next((e for e in cands if e in ext_types), None)
+            m = c["method"]
+            if el is None:
+                # a sort of the (original, extensions) groups is the one legitimate sort: stable, keyed by the original
+                if m.startswith("sort"):
+                    e0 = next((e for e in cands if e), None)
+                    key = "sort:%s:%s" % (f.name, m)
+                    if e0 and any(re.search(r"(?<![\w:])%s(?![\w:])" % re.escape(g), e0) for g in group_marks):
+                        stable = m in ("sort", "sort_by", "sort_by_key", "sort_by_cached_key")
+                        R.check("R11-e", key, stable, "stable sort of (original, extensions) groups",
+                                "`%s` on %s in %s is not a stable sort" % (m, e0, f.path), loc=f.loc())
+                    else:
+                        R.undecided("R11-e", key, "`%s` on %s in %s: not a collection this rule knows" % (m, e0, f.path), loc=f.loc())
                 continue
             n += 1
-            m = c["method"]
             key = "%s:%s" % (f.name, m)
-            if m in LOSSY_OR_REORDERING and not (m == "next"):
+            if m in LOSSY_OR_REORDERING:
                 R.violated("R11-e", key, "`%s` is applied to a collection of extensions (%s) in %s: extensions are no longer "
-                           "merged in document order / some are dropped" % (m, t, f.path), loc=f.loc())
+                           "merged in document order / some are dropped" % (m, el, f.path), loc=f.loc())
             else:
-                R.holds("R11-e", key, "order-preserving use `%s` on %s" % (m, t), loc=f.loc())
-    R.floor("R11-e", "operations on extension collections", n, 8)
-    # the only sort in the module sorts (original, extensions) pairs by the original's position
-    sorts = []
-    for f in P.fns.values():
-        if f.path.startswith(MOD) and "::tests" not in f.path:
-            for c in f.walk():
-                if c.get("k") == "MethodCall" and c["method"].startswith("sort"):
-                    sorts.append((f, c))
-    for f, c in sorts:
-        t = peel_ty(c["recv"].get("ta") or c["recv"].get("t"))
-        stable = c["method"] in ("sort", "sort_by", "sort_by_key", "sort_by_cached_key")
-        R.check("R11-e", "sort:%s:%s" % (f.name, c["method"]), (t.startswith("alloc::vec::Vec<(") or t.startswith("[(")) and stable,
-                "stable sort of (original, extensions) pairs", "unexpected sort `%s` on %s in %s" % (c["method"], t, f.path), loc=f.loc())
+                R.holds("R11-e", key, "order-preserving use `%s` on a collection of %s" % (m, el.split("::")[-1]), loc=f.loc())
+    R.floor("R11-e", "operations on extension collections", n, 4)
 
 
 RULES = [("R11-a", r11a), ("R11-b", r11b), ("R11-d", r11d), ("R11-e", r11e)]
 EXPLANATION = (
     "C11 decided structurally for all inputs: (R11-a) every variant of the three sum types is routed explicitly to its "
-    "same-kind registry and all seven merged lists plus the directive definitions reach the output; (R11-b) each merge "
+    "same-kind registry, every kind's registry receives originals and extensions and is consumed, and all seven merged lists "
+    "plus the directive definitions reach the output; (R11-b) each merge "
     "function destructures the original without `..`, builds the result field by field, reads every component of the "
     "extension type, and each merged component is `original.f.into_iter().chain(<extensions' f>).collect()` with the "
     "original as receiver and no lossy/reordering adaptor, pass-through fields come from the same-named original field; "
     "(R11-c) directive definitions pass through and the output type has no extension variant; (R11-d) error shape: "
-    "DuplicateOriginal only under `Some = item.original`, NoOriginal only for (None, some extension), add_extension is "
-    "total and appends; (R11-e) no operation in the resolver reorders or drops elements of a collection of extensions. "
+    "DuplicateOriginal exactly when an original is already present, NoOriginal only for (None, some extension), registering an "
+    "extension is total and appends; (R11-e) no operation in the resolver reorders or drops elements of a collection of extensions. "
+    "Anchors are resolved by role (signature / field types), not by name. "
     "Not decided: order independence across files as a behavioural statement.")
 ASSUMPTIONS = ["indexmap::IndexMap preserves insertion order (third-party)",
                "rustc type checker: same-kind routing is enforced by ExtensionList<Def, Ext> and fn(Def, Vec<Ext>) -> Def"]
